@@ -116,7 +116,28 @@ func (w MIDIWriter) WriteTo(out io.Writer) (int64, error) {
 			return 0, err
 		}
 	}
-	return s.WriteTo(out)
+	// smf.WriteTo reports a failing write of the header only, a failing
+	// write of a track chunk is dropped: keep the first error ourselves
+	ew := &errWriter{w: out}
+	n, err := s.WriteTo(ew)
+	if err == nil {
+		err = ew.err
+	}
+	return n, err
+}
+
+// errWriter remembers the first error of the underlying writer.
+type errWriter struct {
+	w   io.Writer
+	err error
+}
+
+func (e *errWriter) Write(p []byte) (int, error) {
+	n, err := e.w.Write(p)
+	if err != nil && e.err == nil {
+		e.err = err
+	}
+	return n, err
 }
 
 func (w *MIDIWriter) Note(value float64, velocity uint8, key ...uint8) error {
